@@ -1818,12 +1818,27 @@ func scriptList(path string, full bool) []scriptDesc {
 			out = append(out, scriptDesc{Script: "close-with-pending-call.then-" + f, Kind: "close-pending", Flavour: f, Side: side})
 		}
 	}
+	// Peer.Close() while sessions are still inside an accept / dial hook that has already named them with SetID (so
+	// they are in the index), released after Peer.Close returned or while it still waits for an established session;
+	// an unnamed parked hook as observation; and Peer.Close() while a session's own Close() is parked. Side = the
+	// peer that is closed: S (sessions parked in its PostAccept hook) or C (parked in the far peer's PostAccept /
+	// PostDial hook). In every tier.
+	for _, side := range []string{"S", "C"} {
+		for _, n := range []string{"1", "2"} {
+			out = append(out, scriptDesc{Script: "peer-close.hook-named-parked.release-after-return", Kind: "peer-close-hook", Order: "after-return", Frame: "named", Point: n, Side: side})
+		}
+		out = append(out, scriptDesc{Script: "peer-close.hook-named-parked.release-while-waiting", Kind: "peer-close-hook", Order: "while-waiting", Frame: "named", Point: "1", Side: side})
+		for _, pt := range []string{"afterCAS", "afterIndexDelete"} {
+			out = append(out, scriptDesc{Script: "peer-close.session-close-parked@" + pt, Kind: "peer-close-close-parked", Point: pt, Side: side})
+		}
+	}
+	out = append(out, scriptDesc{Script: "peer-close.hook-unnamed-parked.release-after-return", Kind: "peer-close-hook", Order: "after-return", Frame: "unnamed", Point: "1", Side: "S"})
 	if path == "listener" {
 		// the far ends of ServeConn'ed client connections all default to the listener's address as id and take each
 		// other over (a history op of its own); scripts with more than one connection dial, so that ids are unique
 		for i := range out {
 			out[i].Via = []string{"dial", "serveconn"}[i%2]
-			if out[i].Kind == "setid-mid" || out[i].Kind == "hub-mid" || (out[i].Kind == "close-pending" && out[i].Side == "C") {
+			if out[i].Kind == "setid-mid" || out[i].Kind == "hub-mid" || ((out[i].Kind == "close-pending" || strings.HasPrefix(out[i].Kind, "peer-close-")) && out[i].Side == "C") {
 				out[i].Via = "dial"
 			}
 		}
@@ -1832,7 +1847,7 @@ func scriptList(path string, full bool) []scriptDesc {
 		n := len(out)
 		for i := 0; i < n; i++ {
 			switch out[i].Kind {
-			case "accept-insert", "hook-accept", "hook-far", "close-pending":
+			case "accept-insert", "hook-accept", "hook-far", "close-pending", "peer-close-hook", "peer-close-close-parked":
 				continue
 			}
 			c := out[i]
@@ -1976,6 +1991,180 @@ func runScript(w *world, sd scriptDesc) (vs []viol, inconcl string) {
 		}
 		w.mark(t, "its Close() returned and its connection ended ("+sd.Flavour+")")
 		w.mark(o, "its connection ended ("+sd.Flavour+")")
+	case "peer-close-hook":
+		side := sideS
+		if sd.Side == "C" {
+			side = sideC
+		}
+		p := w.peers[side]
+		l0 := newLink() // an established connection as well
+		if l0 == nil {
+			return
+		}
+		n := 1
+		if sd.Point == "2" {
+			n = 2
+		}
+		var dirs []*directive
+		var parked []*sinfo
+		var lks []*link
+		freeAll := func() {
+			for _, d := range dirs {
+				d.free()
+			}
+		}
+		for i := 0; i < n; i++ {
+			d := &directive{park: true, release: make(chan struct{})}
+			if sd.Frame == "named" {
+				w.idn++
+				d.setid = fmt.Sprintf("login%d", w.idn)
+			}
+			dirs = append(dirs, d)
+			var l *link
+			var err string
+			if side == sideS {
+				l, err = w.connect(d, nil, via, false)
+			} else {
+				l, err = w.connect(nil, d, via, false)
+			}
+			if err != "" {
+				freeAll()
+				return nil, "harness: " + err
+			}
+			select {
+			case si := <-w.parked:
+				parked = append(parked, si)
+			case <-time.After(10 * time.Second):
+				freeAll()
+				return nil, "harness: the hook was not reached"
+			}
+			lks = append(lks, l)
+		}
+		if !w.quiesce() {
+			freeAll()
+			return nil, "watchdog"
+		}
+		var indexed []erpc.Session
+		inIndex := map[erpc.Session]bool{}
+		p.RangeSession(func(s erpc.Session) bool { indexed = append(indexed, s); inIndex[s] = true; return true })
+		for _, si := range parked {
+			if sd.Frame == "named" && !inIndex[si.sess] {
+				freeAll()
+				return nil, infeasible("the session named inside its hook is not in the index while the hook is parked")
+			}
+		}
+		var ps *parkState
+		var cch chan struct{}
+		if sd.Order == "while-waiting" {
+			// Peer.Close has to wait: the established session of the peer is running a handler that is parked
+			ps = &parkState{arrived: make(chan struct{}, 4), release: make(chan struct{})}
+			parkCtl.Store(ps)
+			caller := l0.a
+			if side == sideC {
+				caller = l0.b
+			}
+			cch = run(func() {
+				var res []byte
+				caller.sess.Call(w.parkRoute, []byte("held"), &res)
+			})
+			select {
+			case <-ps.arrived:
+			case <-time.After(trapWait):
+				freeAll()
+				return nil, infeasible("the handler that keeps Peer.Close waiting was not reached")
+			}
+		}
+		w.closed[side] = true
+		pc := run(func() { p.Close() })
+		if sd.Order == "while-waiting" {
+			if !w.quiesce() {
+				freeAll()
+				return nil, "watchdog"
+			}
+			select {
+			case <-pc:
+				freeAll()
+				return nil, infeasible("Peer.Close() returned although a handler of an established session was still running")
+			default:
+			}
+			freeAll() // the hooks return while Peer.Close is still waiting
+			if !w.quiesce() {
+				return nil, "watchdog"
+			}
+			ps.free()
+			parkCtl.Store((*parkState)(nil))
+			if ok, _ := w.await(pc); !ok {
+				return nil, "Peer.Close() has not returned at quiescence (C08's business)"
+			}
+			w.await(cch)
+		} else {
+			if ok, _ := w.await(pc); !ok {
+				freeAll()
+				return nil, "Peer.Close() has not returned at quiescence while hooks were parked (C08's business)"
+			}
+			core.Add("peer_close_returned_while_hooks_were_parked", 1)
+			freeAll() // the hooks return after Peer.Close has returned
+		}
+		for _, l := range lks {
+			ch := l.sdone
+			if side == sideC {
+				ch = l.cdone
+			}
+			if ok, _ := w.await(ch); !ok {
+				return nil, "harness: ServeConn / Dial did not return after its hook was released"
+			}
+		}
+		if !w.quiesce() {
+			return nil, "watchdog"
+		}
+		for _, si := range parked {
+			if si.sess.Health() {
+				core.Add("sessions_established_on_a_closed_peer_after_their_hook_returned_"+sd.Frame, 1)
+			}
+		}
+		// Peer.Close() is the local close of every session that was in the index when it was called
+		for _, e := range indexed {
+			if si := lookup(e); si != nil {
+				w.mark(si, "Peer.Close() of its peer returned and it was in the index when Peer.Close() was called")
+				w.mark(si.partner(), "the far end of its connection was closed by Peer.Close()")
+			}
+		}
+	case "peer-close-close-parked":
+		l := newLink()
+		if l == nil {
+			return
+		}
+		x, o := pick(l)
+		p := w.peers[x.side]
+		if !w.quiesce() {
+			return nil, "watchdog"
+		}
+		tr := gates.Park("close."+sd.Point, match(x))
+		cl := w.goClose(x)
+		if !tr.WaitArrived(trapWait) {
+			return nil, infeasible("Close() did not reach close." + sd.Point)
+		}
+		w.closed[x.side] = true
+		pc := run(func() { p.Close() })
+		if !w.quiesce() {
+			tr.Release()
+			return nil, "watchdog"
+		}
+		select {
+		case <-pc:
+			core.Add("peer_close_returned_while_a_session_close_was_parked_"+sd.Point, 1)
+		default:
+			core.Add("peer_close_waited_for_a_parked_session_close_"+sd.Point, 1)
+		}
+		tr.Release()
+		if ok, _ := w.await(cl); !ok {
+			return nil, "Close() has not returned at quiescence after the gate was released (C08's business)"
+		}
+		if ok, _ := w.await(pc); !ok {
+			return nil, "Peer.Close() has not returned at quiescence (C08's business)"
+		}
+		w.mark(x, "its Close() and Peer.Close() of its peer returned")
+		w.mark(o, "the far end of its connection called Close()")
 	case "close-pending":
 		// X has issued a call whose handler is parked at the far end; X.Close() is waiting for that call; then the
 		// connection is lost (nothing else is released) - or, as control, the reply arrives.
